@@ -78,7 +78,8 @@ class C19:
                         ch = ch[:]
                         ch.insert(rng.randint(0, len(ch)), [])
                     cases.append({"kind": "mapped", "mapper": mp, "marker": mk, "chunks": ch, "finish": rng.choice(["drop", "unwrap"]),
-                                  "max": rng.choice([None, None, 1, 2])})
+                                  "max": rng.choice([None, None, 1, 2]),
+                                  "flush_after": [i for i in range(len(ch)) if rng.random() < 0.5] if rng.random() < 0.3 else []})
         for _ in range(300):
             data = [rng.choice([0, 10, 255, 65]) for _ in range(rng.randint(0, 12))]
             cuts = sorted(rng.sample(range(len(data) + 1), min(len(data) + 1, rng.randint(0, 4))))
